@@ -185,7 +185,7 @@ func sessionBody(so sessOpts, refRnd *rnd.Stream, r *sessResult) {
 	if err == nil {
 		off := 0
 		for _, n := range so.clientW {
-			k, err := conn.Write(wantS[off : off+n])
+			k, err := wire.WriteOwned(conn, wantS[off : off+n])
 			if err != nil || k != n {
 				r.wrErr = fmt.Errorf("Write(%d) = %d, %v", n, k, err)
 				break
@@ -560,7 +560,7 @@ func scenarios(cfg *mc.Config, emit func(mc.Scenario)) {
 						errs = append(errs, fmt.Sprintf("dial %d: %v", i, err))
 						cw.Close()
 					} else {
-						conn.Write([]byte("ping"))
+						wire.WriteOwned(conn, []byte("ping"))
 						buf := make([]byte, 8)
 						got := 0
 						for got < 4 {
@@ -656,7 +656,7 @@ func scenarios(cfg *mc.Config, emit func(mc.Scenario)) {
 						cw.Close()
 						return
 					}
-					if _, err := conn.Write([]byte(fmt.Sprintf("ping-%04d!", i))); err != nil {
+					if _, err := wire.WriteOwned(conn, []byte(fmt.Sprintf("ping-%04d!", i))); err != nil {
 						d.err = fmt.Errorf("Write: %w", err)
 					}
 					buf := make([]byte, 8)
@@ -772,7 +772,7 @@ func scenarios(cfg *mc.Config, emit func(mc.Scenario)) {
 							sched.Sleep(sessionPauses[r])
 						}
 						pausedRound = r
-						if _, wrErr = conn.Write(outbound[r*pblk : (r+1)*pblk]); wrErr != nil {
+						if _, wrErr = wire.WriteOwned(conn, outbound[r*pblk : (r+1)*pblk]); wrErr != nil {
 							return
 						}
 						n, err := io.ReadFull(conn, rb)
